@@ -104,7 +104,9 @@ def c10(work, tier, seed, replay):
     # reverse connection; witness state is read back through the real read API
     e2e = [r for r in runs if not r["id"].startswith("rate")]
     rng.shuffle(e2e)
-    e2e = e2e[:60 if tier == "quick" else 900]
+    ne2e = 60 if tier == "quick" else 900
+    prod_e2e = e2e[ne2e:ne2e + (60 if tier == "quick" else 600)]
+    e2e = e2e[:ne2e]
     ep, et = work.path("e2e-runs.jsonl"), work.path("e2e.ndjson")
     write_runs(ep, params_of(c), e2e)
     o, dt = run_driver(["bastion-e2e", "-in", ep, "-out", et, "-dir", work.sub("db"), "-seed", str(seed)], timeout=3000)
@@ -112,6 +114,15 @@ def c10(work, tier, seed, replay):
     with open(tp, "a") as out:
         out.write(open(et).read())
     rep.cov["end_to_end_runs"] = len(e2e)
+    # the same, with the PRODUCTION BINARY on the witness side (cmd/omniwitness --db_file --bastion_addr ...: flags, key files, SQLite, omniwitness.Main)
+    if prod_e2e:
+        pp, pt = work.path("e2e-prod-runs.jsonl"), work.path("e2e-prod.ndjson")
+        write_runs(pp, params_of(c), prod_e2e)
+        o, dt = run_driver(["bastion-e2e", "-in", pp, "-out", pt, "-dir", work.sub("db"), "-seed", str(seed), "-prod", build_prod_binary()], timeout=3000)
+        rep.notes.append("production binary: " + o.strip() + " (%.0fs)" % dt)
+        with open(tp, "a") as out:
+            out.write(open(pt).read())
+    rep.cov["end_to_end_runs_production_binary"] = len(prod_e2e)
     events = read_ndjson(tp)
     fails = bastion_judge(work, rep, c, tp)
     posts = [e for e in events if e["e"] == "post"]
